@@ -3,6 +3,7 @@
 package server
 
 import (
+	"io"
 	"net"
 	"time"
 
@@ -148,4 +149,100 @@ func VerifC11AcceptLoop(errs []error, wait time.Duration) (admitted bool) {
 	case <-time.After(wait):
 	}
 	return admitted
+}
+
+// VerifC11ConnCap runs the REAL tcpEngine.acceptLoop with a connection cap of
+// maxConns over a scripted listener: `burst` clients connect at once and stay
+// idle, then all leave; finally one more client connects. It reports how many
+// of the burst were admitted (registered), the engine's active count after
+// everybody left, and whether the late client was admitted.
+func VerifC11ConnCap(maxConns, burst int, wait time.Duration) (admitted int, activeAfter int64, lateAdmitted bool) {
+	e := newTCPEngine(verifC11NoRaw{}, "tcp", maxConns, defaultResourcePlan(1))
+	ln := &verifC11Listener{conns: make(chan net.Conn), closed: make(chan struct{})}
+	done := make(chan struct{})
+	go func() { defer close(done); e.acceptLoop(ln) }()
+	var clients []net.Conn
+	for i := 0; i < burst; i++ {
+		srvSide, cliSide := net.Pipe()
+		clients = append(clients, cliSide)
+		select {
+		case ln.conns <- srvSide:
+		case <-time.After(wait):
+			srvSide.Close()
+		}
+	}
+	time.Sleep(20 * time.Millisecond)
+	e.mu.Lock()
+	admitted = len(e.conns)
+	e.mu.Unlock()
+	for _, c := range clients {
+		c.Close()
+	}
+	deadline := time.Now().Add(wait)
+	for time.Now().Before(deadline) {
+		e.mu.Lock()
+		n := len(e.conns)
+		e.mu.Unlock()
+		if n == 0 {
+			break
+		}
+		time.Sleep(2 * time.Millisecond)
+	}
+	time.Sleep(10 * time.Millisecond)
+	activeAfter = e.active.Load()
+	srvSide, cliSide := net.Pipe()
+	select {
+	case ln.conns <- srvSide:
+		time.Sleep(20 * time.Millisecond)
+		e.mu.Lock()
+		lateAdmitted = len(e.conns) == 1
+		e.mu.Unlock()
+	case <-time.After(wait):
+		srvSide.Close()
+	}
+	cliSide.Close()
+	ln.Close()
+	select {
+	case <-done:
+	case <-time.After(wait):
+	}
+	return admitted, activeAfter, lateAdmitted
+}
+
+// VerifC11FillMore puts a tcpStream's fill buffer in the state "bytes
+// [start,end) are unread" (end may be the buffer's size), lets the client have
+// `avail` more bytes ready, and runs the REAL fillMore once. It reports the
+// cursors afterwards and the error class ("" = nil).
+func VerifC11FillMore(start, end, avail int) (ns, ne int, errs string, size int) {
+	a, b := net.Pipe()
+	defer a.Close()
+	defer b.Close()
+	s := new(tcpStream)
+	s.reset(a)
+	if s.wait != nil {
+		s.wait.Stop()
+	}
+	size = len(s.fill)
+	if end > size {
+		end = size
+	}
+	if start > end {
+		start = end
+	}
+	s.start, s.end = start, end
+	go func() {
+		if avail > 0 {
+			_, _ = b.Write(make([]byte, avail))
+		}
+	}()
+	_ = a.SetReadDeadline(time.Now().Add(300 * time.Millisecond))
+	err := s.fillMore()
+	switch {
+	case err == nil:
+	case err == io.ErrShortBuffer:
+		errs = "short-buffer"
+	default:
+		errs = "io"
+	}
+	return s.start, s.end, errs, size
 }
